@@ -1,6 +1,7 @@
 package props
 
 import (
+	"encoding/json"
 	"fmt"
 	"sort"
 	"strings"
@@ -206,6 +207,7 @@ type SchedAction struct {
 }
 
 type schedRun struct {
+	growth      []string // violations of "history only grows" seen between controller actions
 	cmds        []ConcCmd
 	actions     []SchedAction
 	lockOverlap bool // some command ran while another was parked inside its lock section
@@ -267,6 +269,25 @@ func (w *World) runSchedule(cmds []ConcCmd, actions []SchedAction) schedRun {
 	lastLog := string(ReadLog(w.Root))
 	noteCommit := func(i int) {
 		if now := string(ReadLog(w.Root)); now != lastLog {
+			if cmds[i].Op.Kind != "compact" {
+				completeOnly, _ := LogLines([]byte(lastLog))
+				evB, e1 := ParseLog([]byte(strings.Join(completeOnly, "\n") + "\n"))
+				evA, e2 := ParseLog([]byte(now))
+				if e1 == nil && e2 == nil {
+					if len(evA) < len(evB) {
+						sr.growth = append(sr.growth, fmt.Sprintf("while `%s` ran the log shrank from %d to %d events", strings.Join(cmds[i].cmd.Args, " "), len(evB), len(evA)))
+					} else {
+						for k := range evB {
+							a, _ := json.Marshal(evB[k])
+							b, _ := json.Marshal(evA[k])
+							if string(a) != string(b) {
+								sr.growth = append(sr.growth, fmt.Sprintf("while `%s` ran, event %d of the recorded history changed or vanished", strings.Join(cmds[i].cmd.Args, " "), k+1))
+								break
+							}
+						}
+					}
+				}
+			}
 			lastLog = now
 			if cmds[i].Commit == 0 {
 				clock++
